@@ -101,7 +101,8 @@ CLAIMED = {
              "dictionary = / <> on indices agree with byte equality for present and absent constants, < <= > >= agree with byte "
              "order when the constant is present (refuted when absent, F7); null-aware AND as planned keeps exactly the rows of "
              "three-valued AND (OR refuted, F21); the specification's WHERE returns exactly the sub-list of rows whose predicate "
-             "is TRUE, NULL comparisons are never true, IS [NOT] NULL tests presence. The kernels are tied to the Rust code and the "
+             "is TRUE, NULL comparisons are never true, IS [NOT] NULL tests presence; an integer column compared with a float literal "
+             "is compared exactly (m*2^e against the integer, worked examples proved). The kernels are tied to the Rust code and the "
              "specification to LocustDB::run_query by differential runs on every check.",
         note="Plan selection (which encoded / decoded operator the planner picks per partition), LIKE/regex and the filter "
              "application to other columns are covered only by the API-level differential against Model/QuerySpec.v (LIKE is "
@@ -117,8 +118,10 @@ CLAIMED = {
              "aggregate of exactly its rows.",
         note="Proved for integer keys (a key = its rank in the key order) and one key column; the partitioned multi-column kernels, "
              "the per-partition grouping strategies (array / bit-packed / hash), compaction of accumulator arrays, AVG's final pass "
-             "and float sums are covered by the kernel and API differentials only. Multi-column and nullable-key grouping are "
-             "broken in the engine (known findings Q15/Q16).",
+             "and float sums are covered by the kernel and API differentials only. Nullable-key grouping and multi-column grouping "
+             "with float / wide-integer / string keys or under WHERE are broken in the engine (known findings Q15/Q16); multi-column "
+             "grouping by narrow non-null integer keys, groups whose measure is NULL-only in one partition and grouping by a column "
+             "that never exists have dedicated slices that must pass.",
         technique="Coq proof over executable models of the dedup-merge / aggregate-merge kernels + kernel-level and API-level differential correspondence",
         design_ref="5/C04"),
     "C05": dict(
